@@ -12,43 +12,74 @@ import (
 	"verifsim/worlds/core"
 )
 
-// Window enumerates consecutive byte offsets of one direction with one mask.
+// Window enumerates consecutive byte offsets of one direction with one mask
+// or one arithmetic rewrite of the clean byte (zero, minus one, halved).
 type Window struct {
 	Dir, Start, Len, Trials int
 	Mask                    byte
+	Set                     int // 0 = xor Mask; 1 = set to 0; 2 = minus one; 3 = halved
+	Clean                   []byte
 }
 
-// NewWindow draws a window in a third of the cases (nil otherwise).
-func NewWindow(t *rt.Tape, lenGE, lenEG int) *Window {
+// NewWindow draws a window in a third of the cases (nil otherwise). cleanGE
+// and cleanEG are the transcripts of the clean reference session.
+func NewWindow(t *rt.Tape, cleanGE, cleanEG []byte) *Window {
 	if t.Choose(rt.SFault, 3) != 0 {
 		return nil
 	}
 	w := &Window{Dir: t.Choose(rt.SFault, 2)}
-	w.Len = lenGE
+	w.Clean = cleanGE
 	if w.Dir == 1 {
-		w.Len = lenEG
+		w.Clean = cleanEG
 	}
+	w.Len = len(w.Clean)
 	if w.Len == 0 {
 		return nil
 	}
-	switch t.Choose(rt.SFault, 3) {
-	case 0:
-		w.Start = 0
+	switch t.Choose(rt.SFault, 4) {
+	case 0: // the head: key, counts, sizes, names, descriptors
+		w.Start = min(48*t.Choose(rt.SFault, 6), max(0, w.Len-1))
 	case 1:
 		w.Start = max(0, w.Len-48)
 	default:
 		w.Start = t.Choose(rt.SFault, w.Len)
 	}
-	w.Mask = []byte{0x01, 0x80, 0xff, 0x10}[t.Choose(rt.SFault, 4)]
+	switch k := t.Choose(rt.SFault, 7); k {
+	case 0, 1, 2, 3:
+		w.Mask = []byte{0x01, 0x80, 0xff, 0x10}[k]
+	default:
+		w.Set = k - 3
+	}
 	w.Trials = 16 + t.Choose(rt.SFault, 33)
 	return w
+}
+
+// rewrite returns the xor mask that turns clean byte b into the rewritten value.
+func rewrite(set int, b byte) (byte, string) {
+	var to byte
+	switch set {
+	case 1:
+		to = 0
+	case 2:
+		to = b - 1
+	case 3:
+		to = b >> 1
+	}
+	if to == b {
+		to = b ^ 0x01
+	}
+	return b ^ to, fmt.Sprintf("%#02x -> %#02x", b, to)
 }
 
 // Fault returns the k-th fault of the window.
 func (w *Window) Fault(k int) (ge, eg []simnet.Fault, desc []string) {
 	off := (w.Start + k) % w.Len
-	f := simnet.Fault{Kind: simnet.FaultFlip, Off: uint64(off), Mask: w.Mask}
-	desc = []string{fmt.Sprintf("%s off=%d/%d xor %#02x (window)", []string{"G->E", "E->G"}[w.Dir], off, w.Len, w.Mask)}
+	mask, how := w.Mask, fmt.Sprintf("xor %#02x", w.Mask)
+	if w.Set != 0 {
+		mask, how = rewrite(w.Set, w.Clean[off])
+	}
+	f := simnet.Fault{Kind: simnet.FaultFlip, Off: uint64(off), Mask: mask}
+	desc = []string{fmt.Sprintf("%s off=%d/%d %s (window)", []string{"G->E", "E->G"}[w.Dir], off, w.Len, how)}
 	if w.Dir == 0 {
 		return []simnet.Fault{f}, nil, desc
 	}
@@ -58,9 +89,10 @@ func (w *Window) Fault(k int) (ge, eg []simnet.Fault, desc []string) {
 // C16 is the whole-circuit part of the C16 world.
 type C16 struct{ Tier string }
 
-// DrawFaults draws a corruption plan for one trial. lenGE/lenEG are the
-// clean transcript lengths per direction.
-func DrawFaults(t *rt.Tape, lenGE, lenEG int) (ge, eg []simnet.Fault, desc []string) {
+// DrawFaults draws a corruption plan for one trial. cleanGE/cleanEG are the
+// transcripts of the clean reference session per direction.
+func DrawFaults(t *rt.Tape, cleanGE, cleanEG []byte) (ge, eg []simnet.Fault, desc []string) {
+	lenGE, lenEG := len(cleanGE), len(cleanEG)
 	n := 1
 	if t.Choose(rt.SFault, 6) == 0 {
 		n = 2 + t.Choose(rt.SFault, 3)
@@ -80,15 +112,23 @@ func DrawFaults(t *rt.Tape, lenGE, lenEG int) (ge, eg []simnet.Fault, desc []str
 		}
 		var off int
 		switch t.Choose(rt.SFault, 4) {
-		case 0: // head: key, counts, names
-			off = t.Choose(rt.SFault, min(l, 64))
+		case 0: // head: key, counts, sizes, names, descriptors
+			off = t.Choose(rt.SFault, min(l, 256))
 		case 1: // tail: last rows, labels, result
 			off = l - 1 - t.Choose(rt.SFault, min(l, 96))
 		default:
 			off = t.Choose(rt.SFault, l)
 		}
 		f := simnet.Fault{Off: uint64(off)}
-		switch t.Choose(rt.SFault, 4) {
+		how := ""
+		switch t.Choose(rt.SFault, 5) {
+		case 4: // a count or length that becomes smaller: 0, one less, half
+			clean := cleanGE
+			if dir == 1 {
+				clean = cleanEG
+			}
+			f.Kind = simnet.FaultFlip
+			f.Mask, how = rewrite(1+t.Choose(rt.SFault, 3), clean[off])
 		case 0:
 			f.Kind = simnet.FaultFlip
 			f.Mask = 1 << t.Choose(rt.SFault, 8)
@@ -104,7 +144,9 @@ func DrawFaults(t *rt.Tape, lenGE, lenEG int) (ge, eg []simnet.Fault, desc []str
 			f.Seed = uint32(t.Choose(rt.SFault, 1<<16))
 		}
 		d := fmt.Sprintf("%s off=%d/%d ", []string{"G->E", "E->G"}[dir], off, l)
-		if f.Kind == simnet.FaultFlip {
+		if how != "" {
+			d += how
+		} else if f.Kind == simnet.FaultFlip {
 			d += fmt.Sprintf("xor %#02x", f.Mask)
 		} else {
 			d += fmt.Sprintf("burst len=%d", f.Len)
@@ -138,7 +180,13 @@ func (w *C16) Run(t *rt.Tape, trace bool, seed uint64) *core.Result {
 	h := sha256.New()
 
 	// clean reference session: transcript lengths
+	rt.AllocPeak = 0
 	ref := Run(t, Session{Circ: circ, X: in[0], Y: in[1], OT: kind, Pipe: pipe, Trace: false})
+	// The corrupted sessions run on a machine with 8 times the memory the clean
+	// session needed per request: a corrupted count then ends in an allocation
+	// failure (a crashed party) instead of hours of work on 2^24 phantom wires.
+	defer func(old uint64) { rt.AllocLimit = old }(rt.AllocLimit)
+	rt.AllocLimit = max(256<<10, 8*rt.AllocPeak)
 	core.Finish(res, ref.RR)
 	h.Write([]byte(ref.RR.Hash))
 	if res.Inconclusive != "" {
@@ -149,18 +197,17 @@ func (w *C16) Run(t *rt.Tape, trace bool, seed uint64) *core.Result {
 		res.Discard = true
 		return res
 	}
-	lenGE, lenEG := len(ref.GE), len(ref.EG)
 
 	trials := 4 + t.Choose(rt.SGen, 8)
 	// window mode: consecutive byte offsets of one direction, one mask - dense
 	// local enumeration instead of scattered samples
-	win := NewWindow(t, lenGE, lenEG)
+	win := NewWindow(t, ref.GE, ref.EG)
 	if win != nil {
 		trials = win.Trials
 		res.Reach["window-enumerations"]++
 	}
 	for k := 0; k < trials; k++ {
-		ge, eg, desc := DrawFaults(t, lenGE, lenEG)
+		ge, eg, desc := DrawFaults(t, ref.GE, ref.EG)
 		if win != nil {
 			ge, eg, desc = win.Fault(k)
 		}
@@ -168,7 +215,7 @@ func (w *C16) Run(t *rt.Tape, trace bool, seed uint64) *core.Result {
 		simnet.Reset()
 		p := pipe
 		p.AB.Faults, p.BA.Faults = ge, eg
-		o := Run(t, Session{Circ: circ, X: in[0], Y: in[1], OT: kind, Pipe: p, Trace: trace})
+		o := Run(t, Session{Circ: circ, X: in[0], Y: in[1], OT: kind, Pipe: p, Trace: trace, AbortOnStall: true})
 		h.Write([]byte(o.RR.Hash))
 		res.Steps += o.RR.Steps
 		res.Switches += o.RR.Switches
@@ -177,7 +224,7 @@ func (w *C16) Run(t *rt.Tape, trace bool, seed uint64) *core.Result {
 			res.Trace = append(res.Trace, o.RR.Trace...)
 		}
 		for kd, n := range o.EA.Stats.FaultsFired {
-			res.Faults[[]string{"flip", "burst", "close", "reset"}[kd]] += n
+			res.Faults[[]string{"flip", "burst", "close", "reset", "write-error"}[kd]] += n
 		}
 		if o.RR.Outcome == rt.StepCap {
 			res.Inconclusive = "step cap reached"
@@ -191,6 +238,8 @@ func (w *C16) Run(t *rt.Tape, trace bool, seed uint64) *core.Result {
 			res.Reach["outcome.party-crashed"]++
 		case !o.GDone:
 			res.Reach["outcome.session-stalled"]++
+		case o.GErr != nil && o.Aborted:
+			res.Reach["outcome.session-stalled-then-aborted:garbler-error"]++
 		case o.GErr != nil:
 			res.Reach["outcome.garbler-error"]++
 		case gen.EqualOutputs(o.GOut, want):
